@@ -6,6 +6,7 @@ import (
 	"os"
 	"path/filepath"
 	"strconv"
+	"strings"
 	"time"
 )
 
@@ -150,11 +151,17 @@ var replayAliases = map[string]string{
 	"C01/formats-2byte": "C01/programs", "C01/indexed": "C01/programs",
 	"C03/formats-2byte": "C03/programs", "C03/indexed": "C03/programs",
 	"C01/join-long": "C01/join", "C03/join-long": "C03/join",
+	"C01/number-formats": "C01/programs", "C03/number-formats": "C03/programs", "C04/number-formats": "C04/programs", "C11/number-formats": "C11/formats",
+	"C07/byte-windows": "C07/arbitrary", "C07/counts": "C07/arbitrary", "C07/boundaries": "C07/arbitrary", "C07/alias-pairs": "C07/arbitrary",
+	"C08/concat-long": "C08/concat", "C15/w-grammar": "C15/helper", "C15/operand-kinds": "C15/helper", "C12/histories+hook": "C12/histories",
+	"C14/roundtrip-wide": "C14/roundtrip",
 }
 
 // findReplayer resolves a section name: exact, alias, or the longest registered prefix
 // (sections such as C09/state/level3 or C05/cells/cfg101/shapes share one replayer).
 func findReplayer(section string) (func(c *Ctx, raw json.RawMessage) string, bool) {
+	section = strings.Replace(section, "/state-large", "/state", 1)
+	section = strings.Replace(section, "/seq-numeric", "/seq", 1)
 	if a, ok := replayAliases[section]; ok {
 		section = a
 	}
